@@ -319,14 +319,58 @@ class NoneValue(Value):
 
 
 class MultiByteValue(Value):
+    """
+    A comma separated list of values that are each emitted at a fixed width
+    (one byte per element). Elements may be numbers, symbols or expressions.
+    Symbols are resolved with resolve(), labels with fix_addresses().
+    """
+    width = 1
+    value_type = ValueType.MULTI_BYTE
+    description = "multi-byte"
+
     def __init__(self, value):
         super().__init__(value)
         self.hex_array = []
-        self.type = ValueType.MULTI_BYTE
+        self.type = self.value_type
         if "," not in value:
-            raise ValueTypeError("multi-byte declarations must have a comma in them")
-        values = value.split(",")
-        self.hex_array = [NumericValue(x).hex(size=2) for x in values if x != ""]
+            raise ValueTypeError("{} declarations must have a comma in them".format(self.description))
+        self.elements = [
+            Value.create_from_str(x, default_mode_extended=False) for x in value.split(",") if x != ""
+        ]
+        self.render()
+
+    def render(self):
+        """
+        Renders every element at the width of the declaration. Elements that are
+        not yet known are rendered as zero. Raises a ValueTypeError if a value
+        does not fit the width.
+        """
+        self.hex_array = []
+        for element in self.elements:
+            number = 0
+            if element.is_numeric():
+                number = -element.int if element.is_negative() else element.int
+            if number >= (1 << (8 * self.width)) or number < -(1 << (8 * self.width - 1)):
+                raise ValueTypeError("[{}] does not fit in {} byte(s)".format(number, self.width))
+            self.hex_array.append("{:0{}X}".format(number & ((1 << (8 * self.width)) - 1), self.width * 2))
+
+    def resolve(self, symbol_table):
+        self.elements = [element.resolve(symbol_table) for element in self.elements]
+        self.render()
+        return self
+
+    def fix_addresses(self, statements):
+        """
+        Replaces labels and label expressions with their final addresses.
+
+        :param statements: the full set of statements that make up the program
+        """
+        for index, element in enumerate(self.elements):
+            if element.is_address():
+                self.elements[index] = statements[element.int].code_pkg.address
+            elif element.is_address_expression():
+                self.elements[index] = element.calculate_address_offset(statements)
+        self.render()
 
     def hex(self, size=0):
         return "".join(self.hex_array)
@@ -341,27 +385,13 @@ class MultiByteValue(Value):
         return False
 
 
-class MultiWordValue(Value):
-    def __init__(self, value):
-        super().__init__(value)
-        self.hex_array = []
-        self.type = ValueType.MULTI_WORD
-        if "," not in value:
-            raise ValueTypeError("multi-word declarations must have a comma in them")
-        values = value.split(",")
-        self.hex_array = [NumericValue(x).hex(size=4) for x in values if x != ""]
-
-    def hex(self, size=0):
-        return "".join(self.hex_array)
-
-    def hex_len(self):
-        return len(self.hex())
-
-    def is_8_bit(self):
-        return False
-
-    def is_16_bit(self):
-        return False
+class MultiWordValue(MultiByteValue):
+    """
+    A comma separated list of values that are each emitted as a word (high byte first).
+    """
+    width = 2
+    value_type = ValueType.MULTI_WORD
+    description = "multi-word"
 
 
 class StringValue(Value):
